@@ -55,9 +55,9 @@ fn plan(tier: Tier) -> Vec<Workload> {
     let total: u64 = (1..=3u32).map(|l| k.pow(l) * 2u64.pow(l)).sum();
     vec![
         Workload::new("structured", (total + BATCH - 1) / BATCH),
-        Workload::new("random_structured", tier.pick(60_000, 1_500_000) / BATCH),
-        Workload::new("text", tier.pick(60_000, 1_500_000) / BATCH),
-        Workload::new("programs", tier.pick(30_000, 600_000) / BATCH),
+        Workload::new("random_structured", tier.pick(300_000, 6_000_000) / BATCH),
+        Workload::new("text", tier.pick(200_000, 4_000_000) / BATCH),
+        Workload::new("programs", tier.pick(100_000, 2_000_000) / BATCH),
     ]
 }
 
